@@ -217,6 +217,19 @@ class SymChar:
         return f"ch#{self.cid}"
 
 
+class FinExpr:
+    """A value computed from a finite-set symbol by concrete operations: fn(member) for the eventual member."""
+    __slots__ = ("cid", "fn", "desc")
+
+    def __init__(self, cid: int, fn, desc: str):
+        self.cid = cid
+        self.fn = fn
+        self.desc = desc
+
+    def __repr__(self):
+        return f"Fin<{self.desc}>"
+
+
 class SymStr:
     """A string whose characters are concrete 1-char strings or SymChars."""
     __slots__ = ("items",)
@@ -763,6 +776,16 @@ class Interp:
             return i == 0
         return bool(yes)
 
+    def _fin(self, v):
+        """(cid, fn, desc) for finite-set symbols whose members are not characters, else None."""
+        if isinstance(v, FinExpr):
+            return (v.cid, v.fn, v.desc)
+        if isinstance(v, SymChar):
+            members = self.charsets[v.cid]
+            if members and not all(isinstance(x, str) for x in members):
+                return (v.cid, (lambda x: x), f"fin{v.cid}")
+        return None
+
     @staticmethod
     def _as_symstr(v):
         if isinstance(v, SymStr):
@@ -819,7 +842,12 @@ class Interp:
         if isinstance(v, SymStr):
             return len(v.items) > 0
         if isinstance(v, SymChar):
+            f = self._fin(v)
+            if f is not None:
+                return self.char_test(v, lambda x: bool(x), f"truth({f[2]})")
             return True
+        if isinstance(v, FinExpr):
+            return self.char_test(SymChar(v.cid), lambda x: bool(v.fn(x)), f"truth({v.desc})")
         if isinstance(v, Found):
             if v.definite:
                 return True
@@ -857,6 +885,14 @@ class Interp:
         if isinstance(op, (ast.In, ast.NotIn)):
             r = self._contains(b, a)
             return r if isinstance(op, ast.In) else (not r)
+        fa, fb = self._fin(a), self._fin(b)
+        if (fa is not None) != (fb is not None):
+            import operator as _op
+            fn0 = {ast.Lt: _op.lt, ast.LtE: _op.le, ast.Gt: _op.gt, ast.GtE: _op.ge}[type(op)]
+            if fa is not None and isinstance(b, (int, float)):
+                return self.char_test(SymChar(fa[0]), lambda x: fn0(fa[1](x), b), f"{fa[2]} cmp {b!r}")
+            if fb is not None and isinstance(a, (int, float)):
+                return self.char_test(SymChar(fb[0]), lambda x: fn0(a, fb[1](x)), f"{a!r} cmp {fb[2]}")
         if isinstance(a, (SymChar, SymStr)) or isinstance(b, (SymChar, SymStr)):
             import operator as _op
             fn = {ast.Lt: _op.lt, ast.LtE: _op.le, ast.Gt: _op.gt, ast.GtE: _op.ge}[type(op)]
@@ -903,6 +939,14 @@ class Interp:
     def _equal(self, a, b) -> bool:
         if a is None or b is None:
             return self._identical(a, b)
+        fa, fb = self._fin(a), self._fin(b)
+        if fa is not None or fb is not None:
+            if fa is not None and fb is None and not isinstance(b, (str, SymStr)):
+                return self.char_test(SymChar(fa[0]), lambda x: fa[1](x) == b, f"{fa[2]}=={b!r}")
+            if fb is not None and fa is None and not isinstance(a, (str, SymStr)):
+                return self.char_test(SymChar(fb[0]), lambda x: fb[1](x) == a, f"{fb[2]}=={a!r}")
+            if fa is not None and fb is not None and fa[0] == fb[0]:
+                return self.char_test(SymChar(fa[0]), lambda x: fa[1](x) == fb[1](x), f"{fa[2]}=={fb[2]}")
         if isinstance(a, (SymChar, SymStr)) or isinstance(b, (SymChar, SymStr)):
             if self._as_symstr(a) is None or self._as_symstr(b) is None:
                 return False
@@ -1014,7 +1058,7 @@ class Interp:
             r = hook(self, info, args, kwargs)
             if r is not NotImplemented:
                 return r
-        if self.depth >= self.MAX_INLINE:
+        if self.depth >= self.config.get("max_inline", self.MAX_INLINE):
             raise BoundExceeded(f"inline depth at {key}")
         env = Env(self, info, info.module, closure)
         self._bind(info, env, args, kwargs)
@@ -1393,6 +1437,10 @@ class Interp:
         if isinstance(obj, (str, Render)):
             if attr in ("format", "join", "lower", "upper", "strip"):
                 return Bound(obj, _StrMethod(attr))
+            if isinstance(obj, str) and attr in ("replace", "split", "lstrip", "rstrip", "startswith", "endswith",
+                                                 "isspace", "isdigit", "isalpha", "find", "count", "casefold",
+                                                 "title", "swapcase", "capitalize"):
+                return Bound(obj, _StrMethod("concrete:" + attr))
         if isinstance(obj, FactorDict):
             if attr in ("keys",):
                 return Bound(obj, _StrMethod("keys"))
@@ -1815,6 +1863,17 @@ class Interp:
         return self.binop(e.op, self.eval(e.left, env), self.eval(e.right, env))
 
     def binop(self, op, a, b):
+        fa, fb = self._fin(a), self._fin(b)
+        if (fa is not None) != (fb is not None):
+            import operator as _op
+            table = {ast.BitAnd: _op.and_, ast.BitOr: _op.or_, ast.Add: _op.add, ast.Sub: _op.sub, ast.Mult: _op.mul,
+                     ast.LShift: _op.lshift, ast.RShift: _op.rshift, ast.BitXor: _op.xor}
+            f = table.get(type(op))
+            if f is not None:
+                if fa is not None and isinstance(b, int):
+                    return FinExpr(fa[0], lambda x, g=fa[1]: f(g(x), b), f"({fa[2]} {type(op).__name__} {b})")
+                if fb is not None and isinstance(a, int):
+                    return FinExpr(fb[0], lambda x, g=fb[1]: f(a, g(x)), f"({a} {type(op).__name__} {fb[2]})")
         num_a = isinstance(a, (int, float)) and not isinstance(a, bool)
         num_b = isinstance(b, (int, float)) and not isinstance(b, bool)
         if num_a and num_b:
@@ -2140,7 +2199,12 @@ def _call_builtin_method(self: Interp, info, args, kwargs):
                 out = self.concat(out, self.to_render(x))
             return out
         if isinstance(obj, str) and n in ("lower", "upper", "strip"):
-            return getattr(obj, n)()
+            return getattr(obj, n)(*[r for r in rest if isinstance(r, str)])
+        if isinstance(obj, str) and n.startswith("concrete:"):
+            if all(isinstance(r, (str, int)) for r in rest):
+                r = getattr(obj, n.split(":", 1)[1])(*rest)
+                return Lst(r) if isinstance(r, list) else r
+            raise Unsupported(f"str.{n} with abstract arguments at {self.site}")
     if isinstance(obj, FactorDict) and n == "keys":
         return obj
     raise Unsupported(f"method {info.qualname} on {obj!r} at {self.site}")
